@@ -28,6 +28,11 @@ pub fn i_of(i: margined_common::integer::Integer) -> i128 {
 impl VSim {
     pub fn new(decimals: u8, x0: u128, y0: u128, fluct: u128, toll: u128, spread: u128) -> Result<VSim, String> {
         let mut deps = mock_dependencies();
+        // the price feed: answers every smart query with a price of one whole unit (needed by SettleFunding only)
+        let unit = 10u128.pow(decimals as u32);
+        deps.querier.update_wasm(move |_q| {
+            cosmwasm_std::SystemResult::Ok(cosmwasm_std::ContractResult::Ok(cosmwasm_std::to_binary(&Uint128::new(unit)).unwrap()))
+        });
         let env = mock_env();
         let r = catch_unwind(AssertUnwindSafe(|| {
             instantiate(
